@@ -479,6 +479,9 @@ func genOpts(r *rand.Rand, p profile, k int, histSSA, allowDry bool) Opts {
 	o := Opts{Prune: !chance(r, p.pNoPrune), Policy: Policy(r.Intn(3)), ValPol: ValPol(r.Intn(2)),
 		Dry: p.dry[r.Intn(len(p.dry))], SSA: ssa, StatusEvents: chance(r, 0.25),
 		Prop: Prop(r.Intn(3)), StatusPolicyAll: chance(r, 0.3)}
+	if o.Prop == PropBackground && chance(r, 0.4) {
+		o.PropUnset = true // the option left empty: the defaulting of applier.go / destroyer.go (mutation campaign mutE)
+	}
 	if !allowDry {
 		o.Dry = DNone
 	} else if o.Dry == DNone {
